@@ -1,4 +1,5 @@
 import Pike.Lemmas.SysDrain
+import Pike.Spec.Skeleton
 /-
 C01 — single flight: one upstream fetch per cold or expired cache key.
 The statements quantify over `Reachable Facts.waiterRereadsEntry`: every state the system can
@@ -22,6 +23,22 @@ theorem facts_get_or_create_atomic :
     "dispatcher.GetHTTPCache:httpLRUCache:1:deferred" ∈ Facts.lockSections
       ∧ (Facts.accessTable.filter fun a => a.typ = "httpLRUCache" ∧ a.field = "cache").all (fun a => a.lockW) = true := by
   decide
+
+/-- Obligation on the regenerated statement skeletons: the entry state machine and the dispatcher's
+get-or-create / purge in the Go source are, statement for statement (conditions, field updates,
+calls, sends, in source order), what `Entry` and `Sys.step` were transcribed from — see
+`Pike/Spec/Skeleton.lean` for the mapping.  Any edit of these functions other than logging or hook
+calls breaks this obligation, whether or not a property is affected; the suites then look for an
+input on which one fails. -/
+theorem skeleton_transcribed :
+    Facts.skel_Get = Spec.Skeleton.Get ∧ Facts.skel_get = Spec.Skeleton.get
+    ∧ Facts.skel_HitForPass = Spec.Skeleton.HitForPass ∧ Facts.skel_Cacheable = Spec.Skeleton.Cacheable
+    ∧ Facts.skel_initFromStore = Spec.Skeleton.initFromStore ∧ Facts.skel_saveToStore = Spec.Skeleton.saveToStore
+    ∧ Facts.skel_Age = Spec.Skeleton.Age ∧ Facts.skel_GetStatus = Spec.Skeleton.GetStatus
+    ∧ Facts.skel_IsExpired = Spec.Skeleton.IsExpired
+    ∧ Facts.skel_disp_GetHTTPCache = Spec.Skeleton.disp_GetHTTPCache
+    ∧ Facts.skel_disp_RemoveHTTPCache = Spec.Skeleton.disp_RemoveHTTPCache := by
+  refine ⟨?_, ?_, ?_, ?_, ?_, ?_, ?_, ?_, ?_, ?_, ?_⟩ <;> rfl
 
 theorem reach_inv {s : State} (h : Reachable Facts.waiterRereadsEntry s) : Inv s := by
   rw [facts_handover.1] at h; exact inv_reachable h
